@@ -63,6 +63,8 @@ def run_once(case: Dict[str, Any], oracles: Sequence[str], res: CaseResult, M: M
         if name == "values":
             if out.exc is None and out.ref_exc is None and out.value != out.ref_value:
                 res.viol("value", f"returned {out.value!r}, reference {out.ref_value!r}" + tag)
+            if out.exc is None and isinstance(out.ref_exc, (KeyError, IndexError)):
+                res.viol("bad-index-not-raised", f"the function body raises {type(out.ref_exc).__name__} on a bad index, the call returned {out.value!r}" + tag)
         elif name == "dep_order":
             for r, m, k in oracle.dep_order(T, case):
                 res.viol(r, m + tag, k)
@@ -188,6 +190,9 @@ def sched_case(
     max_mc: int = 5,
     min_mc: int = 1,
     profile_rate: float = 0.0,
+    reconf_rate: float = 0.15,
+    index_rate: float = 0.0,
+    bad_index_rate: float = 0.0,
 ) -> Dict[str, Any]:
     mode = draw(st.sampled_from(list(modes)))
     res_pool = list(resources)
@@ -200,7 +205,7 @@ def sched_case(
     sel_on = bool(sel_rate) and draw(st.floats(0, 1)) < sel_rate
     P = draw(gen.flat_prog(min_sites=min_sites, max_sites=ms, max_deps=max_deps, resources=res_pool, prio_range=prio,
                            seq_rate=seq_rate, dep_kinds=kinds, wide=wide, reuse=reuse, n_params=n_params,
-                           mark_roots=not sel_on))
+                           mark_roots=not sel_on, index_rate=index_rate, bad_index_rate=bad_index_rate))
     sites = [s["site"] for s in P["body"]]
     case: Dict[str, Any] = {"prog": P, "mc": draw(st.integers(min_mc, max_mc)), "async": draw(st.booleans()), "mode": mode}
     if flags:
@@ -210,7 +215,7 @@ def sched_case(
             if a is not None and a[0] == "v":
                 prod = [x for x in P["body"] if x["out"] == a[1]][0]
                 f = P["fns"][prod["fn"]]
-                if not f.get("setup"):
+                if not f.get("setup") and f.get("kind") != "tup":
                     f["kind"] = "const"
                     f["val"] = draw(st.sampled_from([0, 1, "", "x", None, True, False, {"T": []}, {"T": [0]}]))
     if n_params:
@@ -229,6 +234,17 @@ def sched_case(
         case["failing"] = draw(st.lists(st.sampled_from(pool), min_size=1, max_size=k, unique=True))
     if sel_on:
         case["sel"] = draw(selection_strategy(P))
+    if case["async"] and draw(st.sampled_from([True, False, False, False])):
+        case["small_loop_pool"] = True  # AsyncDAG awaited in a loop whose default executor has a single worker
+    if reconf_rate and draw(st.floats(0, 1)) < reconf_rate:
+        # a partial reconfiguration after construction: some sites get a new priority only, others a new
+        # is_sequential only (attributes that an entry does not mention must keep their value)
+        some = draw(st.lists(st.sampled_from(sites), min_size=1, max_size=len(sites), unique=True))
+        half = draw(st.integers(0, len(some)))
+        if some[:half]:
+            case["reconf"] = {s: draw(st.integers(-3, 5)) for s in some[:half]}
+        if some[half:]:
+            case["reconf_seq"] = {s: draw(st.booleans()) for s in some[half:]}
     if profile_rate and draw(st.floats(0, 1)) < profile_rate:
         case["profile"] = True  # cfg.TAWAZI_PROFILE_ALL_NODES: every node runs inside the profiling context
     if config_rate and draw(st.floats(0, 1)) < config_rate:
